@@ -401,7 +401,7 @@ def entries(env: str) -> list:
 
 # entry ids are static strings: listing them must not require importing jumanji in the parent
 QUICK = {
-    "Game2048": ["b3", "b4"], "GraphColoring": ["n6p8", "n20p8"], "Minesweeper": ["r3c5m3", "default"],
+    "Game2048": ["b3", "b4"], "GraphColoring": ["n6p8", "n20p8"], "Minesweeper": ["r3c5m3", "default", "r2c2m1"],
     "RubiksCube": ["n2s1t3", "n3s7t7"], "SlidingTilePuzzle": ["g3m50t7d", "g2m1t3s"],
     "Sudoku": ["veryeasy", "dummy"], "BinPack": ["r10e20s2", "r5e10s1o6"], "FlatPack": ["r2c3b", "r3c2c"],
     "JobShop": ["j3m2o3d2", "j5m4o4d4"], "Knapsack": ["n10s", "n50d", "q8d"], "Tetris": ["r6c5t400", "r10c10t400"],
